@@ -599,12 +599,19 @@ class C12(Check):
             x = present(op[1], op[2])
             m = tu.marshall_now(x)
             got = tu.unmarshall_time(m)
+            # the same marshalled form decoded once more (a retry, a second
+            # consumer of one message): the inverse holds every time
+            got2 = tu.unmarshall_time(m)
             if x.tzinfo is None:
                 ok = got == x and got.tzinfo is None
             else:
                 ok = (got == x and got.tzinfo is not None and
                       got.utcoffset() == _dt.timedelta(0) and
                       got.replace(tzinfo=None) == x.replace(tzinfo=None))
+            if ok and (got2 != got or (got2.tzinfo is None) !=
+                       (got.tzinfo is None)):
+                ok = False
+                got = ('second decode differs', got, got2)
             return 'q', (got, lambda now: (ok, x), {'pk': op[2][0]})
         if name == 'leap':
             d = from_us(op[1])
